@@ -154,6 +154,8 @@ def parse_func(mod, name, header, body):
     p.expect('('); f.params = []
     n = 0
     while not p.eat(')'):
+        if p.peek() == '...':
+            p.next(); f.varargs = True; continue
         ty = p.type()
         pname = None
         while p.peek() not in (',', ')'):
@@ -192,7 +194,7 @@ def mask(n): return (1 << n) - 1
 class Machine:
     def __init__(s, mod):
         s.mod = mod; s.mem = {}; s.brk = 0x10000; s.gaddr = {}; s.natives = {}; s.steps = 0; s.allocs = []; s.undef_reads = 0
-        s.fn_by_addr = {}; s.ub = []; s.overrides = {}
+        s.fn_by_addr = {}; s.ub = []; s.overrides = {}; s.step_budget = 2_000_000
         for i, fname in enumerate(list(mod.funcs) + sorted(mod.decls)):
             s.gaddr[fname] = 0x1000 + 16 * i; s.fn_by_addr[0x1000 + 16 * i] = fname
         for g in mod.globals: s._alloc_global(g)
@@ -437,7 +439,7 @@ def run(m, fname, args, depth=0):
         env.update(pend)
         for t in insts[k:]:
             m.steps += 1
-            if m.steps > 2_000_000: raise EngineLimit('step budget')
+            if m.steps > m.step_budget: raise EngineLimit('step budget')
             p = P(t, m.mod)
             dst = None
             if p.peek(1) == '=': dst = p.next(); p.next()
@@ -548,8 +550,10 @@ def run(m, fname, args, depth=0):
                 if op in ('tail', 'musttail', 'notail'): p.expect('call')
                 while p.peek() in ATTR_WORDS or p.peek() == 'fastcc':
                     t0 = p.next()
-                    if t0 in ('dereferenceable', 'align') and p.peek() == '(':
+                    if t0 in ('dereferenceable', 'dereferenceable_or_null', 'align') and p.peek() == '(':
                         p.next(); p.next(); p.next()
+                    elif t0 == 'align' and p.peek().isdigit():
+                        p.next()
                 rty = p.type()
                 callee = p.next()
                 if callee[0] == '%': callee = m.fn_by_addr[env[callee]]
@@ -682,6 +686,30 @@ def call(m, callee, args, depth):
         n = 32 if name.endswith('f32') else 64
         a, b, c = (to_z3fp(x, n) for x in args)
         return from_z3fp(z3.fpFMA(RNE, a, b, c), n)
+    if name.startswith(('llvm.ceil.', 'llvm.floor.', 'llvm.trunc.', 'llvm.rint.', 'llvm.nearbyint.')):
+        n = 32 if name.endswith('f32') else 64
+        rm = {'ceil': z3.RTP(), 'floor': z3.RTN(), 'trunc': z3.RTZ(), 'rint': RNE, 'nearbyint': RNE}[name.split('.')[1]]
+        return from_z3fp(z3.fpRoundToIntegral(rm, to_z3fp(args[0], n)), n)
+    if name.startswith('llvm.fabs.'):
+        n = 32 if name.endswith('f32') else 64
+        return from_z3fp(z3.fpAbs(to_z3fp(args[0], n)), n)
+    if name.startswith(('llvm.ctlz.', 'llvm.cttz.', 'llvm.ctpop.')):
+        n = int(name.split('.i')[-1]); v = args[0]
+        if not isinstance(v, int): raise EngineLimit(name + ' of a symbolic value')
+        v &= mask(n)
+        if 'ctpop' in name: return bin(v).count('1')
+        if v == 0: return n
+        return n - v.bit_length() if 'ctlz' in name else (v & -v).bit_length() - 1
+    if name.startswith(('llvm.umax.', 'llvm.umin.', 'llvm.smax.', 'llvm.smin.')):
+        n = int(name.split('.i')[-1]); a, b = args[0], args[1]
+        kind = name.split('.')[1]
+        if isinstance(a, int) and isinstance(b, int):
+            if kind[0] == 's': x, y = sext(a, n), sext(b, n)
+            else: x, y = a & mask(n), b & mask(n)
+            return (a if ((x >= y) == (kind.endswith('max'))) else b) & mask(n)
+        A, B = bv(a, n), bv(b, n)
+        ge = (A >= B) if kind[0] == 's' else z3.UGE(A, B)
+        return z3.simplify(z3.If(ge, A, B) if kind.endswith('max') else z3.If(ge, B, A))
     if name.startswith('llvm.fshl') or name.startswith('llvm.fshr'):
         n = int(name.split('.i')[-1]); a, b, c = (bv(x, n) for x in args)
         cat = z3.Concat(a, b); sh = z3.ZeroExt(n, z3.URem(c, n))
